@@ -1,21 +1,29 @@
 /-
 L4 — the crash / redelivery protocol of ONE execution (property C04), as a small-step model.
 
-The execution is a *skeleton*: a sequence of state visits — a Task visit (request to a worker, reply),
-a visit handled in one go (Pass, Choice, Succeed …), a visit that goes on from a timer (Wait) — and
-Parallel / Map states whose branches are skeletons again (`mc` = MaxConcurrency, 0: all at once).
-The configuration has what survives a crash — the event queue and the reply queue of the broker (a
-message is ready or delivered-and-unacknowledged; a crash makes every unacknowledged message ready
-again, marked redelivered), the requests the workers got (a worker answers every request once) — and
-the engine's volatile state, which a crash wipes: armed timers (the deferred handlers of Task, Wait,
+The execution is a *skeleton*: a sequence of state visits — a Task visit (request to a worker, reply; `rc` is the
+RetryCount its event carries: the event of a retry sends its request from the back-off timer), a visit handled in
+one go (Pass, Choice, Succeed …), a visit that goes on from a timer (Wait), a Task that runs a synchronous child
+execution (`startExecution.sync`: the child is a skeleton of its own, its terminal notification answers the
+parent's Task) — and Parallel / Map states whose branches are skeletons again (`mc` = MaxConcurrency, 0: all at
+once).  The *outcome* of a visit is what follows it: the rest of the skeleton, or a failure (`fail`) that is handled
+by the `lvl`-th enclosing Parallel / Map state (its Retry or Catch: `cont` follows) or by none (the execution fails).
+
+The configuration has what survives a crash — the event queue and the reply queue of the broker (a message is
+ready or delivered-and-unacknowledged; a crash makes every unacknowledged message ready again, marked
+redelivered), the requests the workers got (a worker answers every request once), the Map batches that were
+started — and the engine's volatile state, which a crash wipes: armed timers (the deferred handlers of Task, Wait,
 Parallel and Map states), pending requests, retained orphan replies, the joins (filled slots, held events).
 
 The rules are copied from state_engine.py (`asl_state_Task` / `…_delegate` / `on_response`,
-`asl_state_collect_results`, `handle_terminal_state`) and task_dispatcher.py (`execute_task`: a redelivered
-Task event registers its request without sending it; `handle_rpcmessage_response`: a reply nobody waits
-for is retained and matched later by `handle_orphaned_responses`).  Three deviations from the crash-safe
-protocol sit behind switches (`Quirks`); with all of them off the model is the protocol C04 describes
-(for crashes between two handler invocations).
+`asl_state_collect_results`, `handle_terminal_state`, `handle_error`, `end_execution`) and task_dispatcher.py
+(`execute_task`: a redelivered Task event registers its request without sending it; `handle_rpcmessage_response`:
+a reply nobody waits for is retained and matched later by `handle_orphaned_responses`; `handle_sfn_response`: a
+child execution that ends hands its result to the parent's pending request by a call).  Every deviation from the
+crash-safe protocol sits behind a switch (`Quirks`); with all of them off the model is the protocol C04 describes:
+it decides "already requested" / "batch already started" from what is durable (the requests the workers received,
+the batches started — records an implementation would have to write together with the publication), never from
+the `redelivered` flag or from its own memory.
 
 A handler invocation is a list of broker operations (publish / ack) in the order the code performs
 them; it can be cut short after its first `k` operations by a crash (`cut`).
@@ -27,12 +35,18 @@ mutual
 /-- the rest of a sequence of state visits -/
 inductive Sk where
   | done
-  | task (rest : Sk)
-  /-- a Task whose reply fails the whole execution (an error nothing handles, in or out of a fan-out) -/
-  | taskFail
+  /-- a Task visit; `rc`: the RetryCount its event carries (0: not a retry) -/
+  | task (rc : Nat) (rest : Sk)
   | step (rest : Sk)
   | wait (rest : Sk)
   | par (mc : Nat) (branches : Br) (rest : Sk)
+  /-- a Task that starts a synchronous child execution `sub` and waits for it to end -/
+  | child (rc : Nat) (sub : Sk) (rest : Sk)
+  /-- the visit before ends in an error its own state does not handle: the `lvl`-th enclosing Parallel / Map state
+  (0: the innermost) retries or catches it and `cont` follows there; `none` (or no such state): the execution fails -/
+  | fail (lvl : Option Nat) (cont : Sk)
+  /-- a path the crash-free run did not take: nothing is known about it -/
+  | opaque
   deriving Repr, DecidableEq
 inductive Br where
   | nil
@@ -45,18 +59,30 @@ def Br.toList : Br → List Sk
   | .cons b bs => b :: bs.toList
 
 structure Quirks where
-  /-- C04-F1: the Task's request is sent from a deferred timer, after its event has been accepted -/
+  /-- C04-F1: the Task's request is sent from a deferred timer, after its event has been accepted, and a redelivered
+  event is taken to have been requested already -/
   requestFromTimer : Bool := false
   /-- C04-F2: inside a fan-out a reply is acknowledged once handled; its result is only in the volatile join -/
   replyAckedBeforeJoin : Bool := false
   /-- C04-F4: a nested fan-out that ends its branch acknowledges its branch events; its result is only in the
   enclosing join's memory -/
   nestedJoinAcksEarly : Bool := false
+  /-- C04-F7: a (redelivered) branch event that completes a batch of a Map with MaxConcurrency publishes the event
+  that starts the next batch whether or not that batch was started before -/
+  batchRelaunched : Bool := false
+  /-- C04-F8: a synchronous child execution that ends hands its result to the parent's pending request by a call;
+  when the parent's Task has not registered its request again nothing keeps the result -/
+  childAnswerInProcess : Bool := false
+  /-- C04-F9: that a fan-out attempt has failed (its failure was retried or caught) is only in the engine's memory: after a
+  crash what is left of its branches is taken up again, and a late failure among them fails the fan-out state a second time -/
+  attemptFailureForgotten : Bool := false
   deriving Repr, DecidableEq
 
 def Quirks.none : Quirks := {}
 /-- the engine as it is (the open findings) -/
-def Quirks.engine : Quirks := { requestFromTimer := true, replyAckedBeforeJoin := true, nestedJoinAcksEarly := true }
+def Quirks.engine : Quirks :=
+  { requestFromTimer := true, replyAckedBeforeJoin := true, nestedJoinAcksEarly := true, batchRelaunched := true,
+    childAnswerInProcess := true, attemptFailureForgotten := true }
 
 /-- where a branch reports to: the join, its slot, the join's width, the branches (for later batches) and
 what follows the fan-out state -/
@@ -69,10 +95,11 @@ structure Frame where
   deriving Repr, DecidableEq
 
 inductive EvKind where
-  /-- run `todo` (its head is the state to visit); `start`: the execution's first event -/
-  | visit (todo : Sk) (stack : List Frame) (start : Bool)
+  /-- run `todo` (its head is the state to visit); `start`: the execution's first event; `owner`: the Task event of
+  the parent execution when this is an event of a synchronous child -/
+  | visit (todo : Sk) (stack : List Frame) (start : Bool) (owner : Option Nat)
   /-- a Map state re-entered for its next batch, from iteration `from_` -/
-  | reenter (frame : Frame) (from_ : Nat) (stack : List Frame)
+  | reenter (frame : Frame) (from_ : Nat) (stack : List Frame) (owner : Option Nat)
   deriving Repr, DecidableEq
 
 structure QEv where
@@ -94,18 +121,35 @@ structure Join where
   /-- (slot, event): the events held for the branches, in slot order (the order in which they are acknowledged) -/
   heldEv : List (Nat × Nat) := []
   heldRp : List Nat := []
+  /-- the engine's record that the fan-out attempt is over (`"terminated"`): it has failed, or an event of one of its
+  branches was dropped; what is left of its branches is dropped, what its branches still deliver is absorbed -/
+  dead : Bool := false
+  /-- the execution has ended and the engine has kept its records of the attempts (something was still outstanding): whatever
+  event of the execution arrives now is dropped -/
+  ended : Bool := false
   deriving Repr, DecidableEq
 
 structure Cfg where
   evq : List QEv := []
   rpq : List QRp := []
-  /-- correlation ids of the requests the workers received, with multiplicity -/
+  /-- correlation ids of the requests the workers received (child executions started), with multiplicity -/
   sent : List Nat := []
   running : Nat := 0
   /-- terminal notifications -/
   notes : Nat := 0
+  /-- notifications of child executions -/
+  cnotes : Nat := 0
   nextId : Nat := 0
   nextJ : Nat := 0
+  /-- (join, first iteration) of the Map batches whose re-entry event was published -/
+  batches : List (Nat × Nat) := []
+  /-- the run has left the paths the skeleton describes -/
+  diverged : Bool := false
+  /-- terminal notifications of a failed execution -/
+  failed : Nat := 0
+  /-- the fan-out attempts on record as failed (crash-safe protocol: written together with the publication of what follows
+  the failure) -/
+  deadJ : List Nat := []
   -- volatile
   timers : List Nat := []
   pending : List Nat := []
@@ -117,7 +161,18 @@ structure Cfg where
 inductive Act where
   | pubEv (k : EvKind)
   | pubReq (corr : Nat)
+  /-- the request of a synchronous child: its first event -/
+  | pubChild (corr : Nat) (sub : Sk)
+  /-- the answer of a child execution that has ended, as a message of the reply queue (crash-safe protocol) -/
+  | pubAns (corr : Nat)
   | note (terminal : Bool)
+  /-- the terminal notification of an execution that failed -/
+  | fnote
+  /-- what follows a failure that a fan-out state retries / catches, published together with the record that the attempts
+  `dead` are over (crash-safe protocol) -/
+  | pubDead (k : EvKind) (dead : List Nat)
+  /-- a notification of a child execution -/
+  | cnote (terminal : Bool)
   | ackEv (id : Nat)
   | ackRp (corr : Nat)
   deriving Repr, DecidableEq
@@ -126,11 +181,23 @@ def removeFirst (p : QRp → Bool) : List QRp → List QRp
   | [] => []
   | r :: rs => if p r then rs else r :: removeFirst p rs
 
+def batchKey : EvKind → List (Nat × Nat)
+  | .reenter f from_ _ _ => [(f.jid, from_)]
+  | _ => []
+
 def Cfg.act (c : Cfg) : Act → Cfg
-  | .pubEv k => { c with evq := c.evq ++ [{ id := c.nextId, kind := k }], nextId := c.nextId + 1 }
+  | .pubEv k => { c with evq := c.evq ++ [{ id := c.nextId, kind := k }], nextId := c.nextId + 1,
+                         batches := c.batches ++ batchKey k }
   | .pubReq corr => { c with sent := c.sent ++ [corr], rpq := c.rpq ++ [{ corr := corr }] }
+  | .pubChild corr sub => { c with sent := c.sent ++ [corr], nextId := c.nextId + 1,
+                                   evq := c.evq ++ [{ id := c.nextId, kind := .visit sub [] true (some corr) }] }
+  | .pubAns corr => { c with rpq := c.rpq ++ [{ corr := corr }] }
   | .note true => { c with notes := c.notes + 1 }
+  | .fnote => { c with notes := c.notes + 1, failed := c.failed + 1 }
+  | .pubDead k dead => { c with evq := c.evq ++ [{ id := c.nextId, kind := k }], nextId := c.nextId + 1,
+                                batches := c.batches ++ batchKey k, deadJ := c.deadJ ++ dead }
   | .note false => { c with running := c.running + 1 }
+  | .cnote _ => { c with cnotes := c.cnotes + 1 }
   | .ackEv id => { c with evq := c.evq.filter (fun m => !(m.id == id && m.unacked)) }
   | .ackRp corr => { c with rpq := removeFirst (fun r => r.corr == corr && r.unacked) c.rpq }
 
@@ -180,61 +247,281 @@ def insertHeld (idx ev : Nat) (xs : List (Nat × Nat)) : List (Nat × Nat) :=
 def batchOf (mc width from_ : Nat) : List Nat :=
   (List.range width).filter (fun i => from_ ≤ i && (mc == 0 || i < from_ + mc))
 
-def launch (f : Frame) (from_ : Nat) (stack : List Frame) : List Act :=
+def launch (f : Frame) (from_ : Nat) (stack : List Frame) (owner : Option Nat) : List Act :=
   let bs := f.branches.toList
   (batchOf f.mc bs.length from_).filterMap (fun i =>
     match bs[i]? with
-    | some b => some (.pubEv (.visit b ({ f with idx := i } :: stack) false))
+    | some b => some (.pubEv (.visit b ({ f with idx := i } :: stack) false owner))
     | none => none)
 
-/-- the visit of event `ev` is over, `rest` follows; `rp`: the reply that completed it (a Task visit).
-Returns the broker operations and the new joins.  `fuel` bounds the nesting of joins completing one another. -/
-def advance (q : Quirks) : Nat → Nat → Sk → List Frame → Option Nat → List Join → List Act × List Join
-  | 0, _, _, _, _, js => ([], js)
-  | fuel + 1, ev, rest, stack, rp, js =>
-    let ackR : List Act := match rp with | some c => [.ackRp c] | none => []
+def evStack : EvKind → List Frame
+  | .visit _ s _ _ => s
+  | .reenter _ _ s _ => s
+
+def evOwner : EvKind → Option Nat
+  | .visit _ _ _ o => o
+  | .reenter _ _ _ o => o
+
+def findEv (c : Cfg) (id : Nat) (unacked : Bool) : Option QEv :=
+  c.evq.find? (fun m => m.id == id && m.unacked == unacked)
+
+/-- enough for every chain of joins (and parents) completing one another -/
+def fuelOf (c : Cfg) : Nat := (c.evq.map (fun m => (evStack m.kind).length + 1)).sum + 2
+
+/-- (join, slot) of the branch an event belongs to -/
+def evSlot (m : QEv) : Nat × Nat :=
+  match evStack m.kind with
+  | f :: _ => (f.jid, f.idx)
+  | [] => (0, 0)
+
+def slotLe (a b : QEv) : Bool :=
+  (evSlot a).1 < (evSlot b).1 || ((evSlot a).1 == (evSlot b).1 && (evSlot a).2 ≤ (evSlot b).2)
+
+def insertBySlot (m : QEv) : List QEv → List QEv
+  | [] => [m]
+  | x :: xs => if slotLe x m then x :: insertBySlot m xs else m :: x :: xs
+
+/-! ### a fan-out attempt fails
+
+What the engine knows of a fan-out attempt is the join: its slots, the events it holds for them (`ids`: the event of a
+slot is registered when it is delivered), and whether the attempt is over (`dead`).  When a failure has been dealt with —
+the Retry / Catch of an enclosing Parallel / Map state took it, or the execution ended — `check_pending_results` tidies up:
+it cancels the Tasks and Waits of the attempts that are over (a cancellation reports back at once, as the error
+Task.Terminated, and acknowledges its event) and acknowledges the events held for them; attempts nested in the branches
+of a failed attempt are gone through in the same way.  What an event still on its way, or a nested state about to be
+launched, finally delivers to an attempt that is over is dropped or absorbed. -/
+
+/-- the fan-out attempts an event belongs to, innermost first -/
+def evJids : EvKind → List Nat
+  | .visit _ s _ _ => s.map (·.jid)
+  | .reenter f _ s _ => f.jid :: s.map (·.jid)
+
+/-- is the attempt on record as over: in the engine's memory, or — crash-safe protocol — durably -/
+def deadJid (q : Quirks) (c : Cfg) (v : Vol) (j : Nat) : Bool :=
+  v.joins.any (fun x => x.jid == j && x.dead) || (!q.attemptFailureForgotten && c.deadJ.contains j)
+
+def markDead (js : List Join) (jids : List Nat) : List Join :=
+  jids.foldl (fun acc j => setJoin acc { getJoin acc j with dead := true }) js
+
+/-- an event whose state is neither a Parallel nor a Map state, inside a branch: it is registered for its slot when delivered -/
+def plainVisit : EvKind → Bool
+  | .visit (.par _ _ _) _ _ _ => false
+  | .visit _ (_ :: _) _ _ => true
+  | _ => false
+
+def waitVisit : EvKind → Bool
+  | .visit (.wait _) _ _ _ => true
+  | _ => false
+
+/-- `ids`: the delivered events the engine holds for the slots of attempt `jid`, in slot order -/
+def registered (c : Cfg) (owner : Option Nat) (jid : Nat) : List QEv :=
+  (c.evq.filter (fun m => m.unacked && plainVisit m.kind && evOwner m.kind == owner && (evSlot m).1 == jid)).foldl
+    (fun acc m => insertBySlot m acc) []
+
+/-- a Task that waits for its reply, or a Wait whose timer is armed: it can be cancelled -/
+def cancellable (v : Vol) (m : QEv) : Bool :=
+  v.pending.contains m.id || (waitVisit m.kind && v.timers.contains m.id)
+
+def insertSorted (x : Nat) : List Nat → List Nat
+  | [] => [x]
+  | y :: ys => if x == y then y :: ys else if x < y then x :: y :: ys else y :: insertSorted x ys
+
+/-- `check_pending_results` while the execution goes on: in the attempts that are over (in the order they were made) first
+what can be cancelled is (each cancellation acknowledges its event), then the events held for them are acknowledged.
+`excl`: events the running handler acknowledges itself. -/
+def tidy (c : Cfg) (v : Vol) (owner : Option Nat) (excl : List Nat) : List Act × Vol :=
+  let deadJs := v.joins.filter (·.dead)
+  let deadIds := deadJs.map (·.jid)
+  -- an attempt nested (at any depth) in a branch of one that is over makes no further progress either: it is gone through
+  -- like the one that is over (the engine knows of it through the events it holds for it)
+  let nested := (c.evq.filter (fun m => m.unacked && plainVisit m.kind && evOwner m.kind == owner &&
+      ((evJids m.kind).drop 1).any (fun j => deadIds.contains j))).map (fun m => (evSlot m).1)
+  let jids := (deadIds ++ nested).foldl (fun acc x => insertSorted x acc) []
+  let regs := (jids.flatMap (registered c owner)).filter (fun m => !excl.contains m.id)
+  let ids := ((regs.filter (cancellable v)) ++ (regs.filter (fun m => !cancellable v m))).map (·.id)
+  -- (a nested attempt one of whose Tasks / Waits is cancelled is over from then on)
+  let newlyDead := ((regs.filter (cancellable v)).map (fun m => (evSlot m).1)).filter (fun j => !deadIds.contains j)
+  let v := { v with joins := markDead v.joins newlyDead.eraseDups }
+  -- (crash-safe protocol: what the joins themselves still hold — events of nested joins, replies)
+  let heldE := ((deadJs.flatMap (fun j => j.heldEv.map (·.2))).filter (fun e => !ids.contains e && !excl.contains e)).eraseDups
+  let heldR := (deadJs.flatMap (·.heldRp)).eraseDups
+  (ids.map Act.ackEv ++ heldE.map Act.ackEv ++ heldR.map Act.ackRp,
+   { v with pending := v.pending.filter (fun p => !ids.contains p), timers := v.timers.filter (fun t => !ids.contains t),
+            joins := v.joins.map (fun j => if j.dead then { j with heldEv := [], heldRp := [] } else j) })
+
+/-- `check_pending_results` once the execution has ended: every attempt is gone through.  The code walks the joins in the
+order they were made and their slots in order and cancels what waits; a cancellation reports back at once, and when it is the
+first failure its join sees it first tidies up everything else (recursively) and acknowledges its own event afterwards.  So:
+the events of the joins that had already failed (`failedJ`: those around the failing visit) and of later cancellations in
+slot order, then the first-cancelled ones, last first.  Every attempt is then on record as over. -/
+def tidyEnd (c : Cfg) (v : Vol) (owner : Option Nat) (excl : List Nat) (failedJ : List Nat) : List Act × Vol :=
+  let mine := c.evq.filter (fun m => evOwner m.kind == owner)
+  let all := (mine.filter (fun m => m.unacked && plainVisit m.kind && !excl.contains m.id)).foldl
+    (fun acc m => insertBySlot m acc) []
+  let r := all.foldl (fun (r : List Nat × List Nat × List Nat) m =>
+    let (selfAck, listAck, failed) := r
+    if cancellable v m && !failed.contains (evSlot m).1 then
+      (m.id :: selfAck, listAck, failed ++ (evStack m.kind).map (·.jid))
+    else (selfAck, listAck ++ [m.id], failed)) ([], [], failedJ ++ (v.joins.filter (·.dead)).map (·.jid))
+  let ids := r.2.1 ++ r.1
+  let jall := ((mine.flatMap (fun m => evJids m.kind)) ++ failedJ).eraseDups
+  let mineJ := v.joins.filter (fun j => jall.contains j.jid)
+  let heldE := ((mineJ.flatMap (fun j => j.heldEv.map (·.2))).filter (fun e => !ids.contains e && !excl.contains e)).eraseDups
+  let heldR := (mineJ.flatMap (·.heldRp)).eraseDups
+  -- the records are kept while something of a branch is still outstanding (an event on its way, a nested state about to be
+  -- launched); otherwise they are deleted
+  let outstanding := mine.any (fun m => !(evJids m.kind).isEmpty && !ids.contains m.id && !heldE.contains m.id && !excl.contains m.id)
+  let kept : List Join := if outstanding then jall.map (fun j => ({ jid := j, dead := true, ended := true } : Join)) else []
+  (ids.map Act.ackEv ++ heldE.map Act.ackEv ++ heldR.map Act.ackRp,
+   { v with pending := v.pending.filter (fun p => !ids.contains p), timers := v.timers.filter (fun t => !ids.contains t),
+            joins := v.joins.filter (fun j => !jall.contains j.jid) ++ kept })
+
+/-- the visit of event `ev` is over and `rest` is its outcome; `rp`: the reply that completed it (a Task visit).
+Returns the broker operations and the new volatile state.  `fuel` bounds the nesting of joins (and parent
+executions) completing one another. -/
+def advance (q : Quirks) (c : Cfg) :
+    Nat → Nat → Sk → List Frame → Option Nat → Option Nat → Vol → List Act × Vol
+  | 0, _, _, _, _, _, v => ([], v)
+  | fuel + 1, ev, rest, stack, owner, rp, v =>
+    let ackR : List Act := match rp with | some r => [.ackRp r] | none => []
+    let js := v.joins
     match rest, stack with
-    | .done, [] => ([.note true, .ackEv ev] ++ ackR, js)
+    | .fail lvl cont, stack =>
+      -- a Task / Wait handler acknowledges its own event when everything else is done; the event of any other failing state is
+      -- registered for its slot and acknowledged with the events held for the attempt
+      let selfAcked : Bool := match findEv c ev true with
+        | some m => (match m.kind with
+          | .visit (.step _) (_ :: _) _ _ => false
+          | _ => true)
+        | none => true
+      let excl : List Nat := if selfAcked then [ev] else []
+      let own (acts : List Act) : List Act := if acts.contains (.ackEv ev) then [] else [.ackEv ev]
+      let jids := stack.map (·.jid)
+      let handledAt : Option Nat := match lvl with
+        | some k => if k < stack.length then some k else none
+        | none => none
+      -- the failure goes up from join to join; an attempt that is already over absorbs it
+      let firstDead : Option Nat := (List.range stack.length).find? (fun i =>
+        match jids[i]? with
+        | some j => deadJid q c v j
+        | none => false)
+      let absorbedAt : Option Nat := match firstDead, handledAt with
+        | some i, some k => if i ≤ k then some i else none
+        | some i, none => some i
+        | none, _ => none
+      match absorbedAt, handledAt with
+      | some i, _ =>
+        let (acts, v') := tidy c { v with joins := markDead js (jids.take i) } owner excl
+        (acts ++ own acts ++ ackR, v')
+      | none, some k =>
+        -- the `k`-th enclosing fan-out state retries / catches the failure: `cont` follows at its level; the attempts up to
+        -- there are over
+        let gone := jids.take (k + 1)
+        let next : EvKind := .visit cont (stack.drop (k + 1)) false owner
+        let pub : Act := if q.attemptFailureForgotten then .pubEv next else .pubDead next gone
+        let (acts, v') := tidy c { v with joins := markDead js gone } owner excl
+        ([pub] ++ acts ++ own acts ++ ackR, v')
+      | none, none =>
+        -- the execution fails
+        let endActs : List Act × Vol :=
+          match owner with
+          | none => ([.fnote], v)
+          | some p =>
+            if q.childAnswerInProcess then
+              if v.pending.contains p then
+                match findEv c p true with
+                | some m =>
+                  match m.kind with
+                  | .visit (.child _ _ prest) pstack _ powner =>
+                    let (acts, v') := advance q c fuel p prest pstack powner none { v with pending := v.pending.erase p }
+                    (acts ++ [.cnote true], v')
+                  | _ => ([.cnote true], v)
+                | none => ([.cnote true], v)
+              else ([.cnote true], v)
+            else ([.pubAns p, .cnote true], v)
+        let (acts, v') := tidyEnd c endActs.2 owner excl jids
+        (endActs.1 ++ acts ++ own acts ++ ackR, v')
+    | .done, [] =>
+      match owner with
+      | none =>
+        if js.any (·.dead) then
+          -- the execution ends while attempts that failed earlier are on record: what is left of them is tidied up
+          let (acts, v') := tidyEnd c v none [ev] []
+          ([.note true] ++ acts ++ [.ackEv ev] ++ ackR, v')
+        else if (q.attemptFailureForgotten || q.batchRelaunched) && !js.isEmpty then
+          -- the engine has other attempts on record (what a crash left of an attempt that had failed, a second launch of
+          -- a fan-out state …), none of them known to be over: the events held for them are let go, nothing is cancelled
+          let ids := (((js.map (·.jid)).foldl (fun acc x => insertSorted x acc) []).flatMap (registered c none)).map (·.id)
+          let ids := ids.filter (fun i => i != ev)
+          ([.note true] ++ ids.map Act.ackEv ++ [.ackEv ev] ++ ackR,
+           { v with joins := [], timers := v.timers.filter (fun t => !ids.contains t) })
+        else ([.note true, .ackEv ev] ++ ackR, v)
+      | some p =>
+        -- a child execution ends: its result answers the parent's Task
+        if q.childAnswerInProcess then
+          if v.pending.contains p then
+            match findEv c p true with
+            | some m =>
+              match m.kind with
+              | .visit (.child _ _ prest) pstack _ powner =>
+                let (acts, v') := advance q c fuel p prest pstack powner none { v with pending := v.pending.erase p }
+                (acts ++ [.cnote true, .ackEv ev] ++ ackR, v')
+              | _ => ([.cnote true, .ackEv ev] ++ ackR, v)
+            | none => ([.cnote true, .ackEv ev] ++ ackR, v)
+          else ([.cnote true, .ackEv ev] ++ ackR, v)
+        else ([.pubAns p, .cnote true, .ackEv ev] ++ ackR, v)
     | .done, f :: outer =>
+      if deadJid q c v f.jid then
+        -- the attempt is over: the result is of no use; the event, registered for its slot, goes with what is held for the attempt
+        let (acts, v') := tidy c v owner []
+        (acts ++ (if acts.contains (.ackEv ev) then [] else [.ackEv ev]) ++ ackR, v')
+      else
       -- the branch ends: its result goes into slot `f.idx` of the join; its event is held
       let j := getJoin js f.jid
       let j := { j with filled := insertNat f.idx j.filled, heldEv := insertHeld f.idx ev j.heldEv,
                         heldRp := match rp with
-                          | some c => if q.replyAckedBeforeJoin then j.heldRp else insertNat c j.heldRp
+                          | some r => if q.replyAckedBeforeJoin then j.heldRp else insertNat r j.heldRp
                           | none => j.heldRp }
       let width := f.branches.toList.length
       let early : List Act := if q.replyAckedBeforeJoin then ackR else []
       if j.filled.length ≥ width then
         -- the join is complete: what follows the fan-out state goes on; the held events (and replies) are released
         let release : List Act := (j.heldEv.map (fun p => Act.ackEv p.2)) ++ (j.heldRp.map .ackRp)
-        let js' := dropJoin js f.jid
+        -- (the engine keeps the record of a join that has completed: whatever is delivered to it again completes it again)
+        let js' := if q.batchRelaunched then setJoin js { j with heldEv := [], heldRp := [] } else dropJoin js f.jid
         match f.rest, outer with
-        | .done, [] => ([.note true] ++ release ++ early, js')
         | .done, g :: outer' =>
           -- a nested fan-out ends its branch: its result goes into the enclosing join
           if q.nestedJoinAcksEarly then
             -- the enclosing join gets the result (it may complete, or finish a batch: that goes first) but holds
             -- nothing for this slot; then the nested join's events are released
-            let (acts, js3) := advance q fuel ev .done (g :: outer') none js'
-            let js3 := js3.map (fun x => if x.jid == g.jid then { x with heldEv := x.heldEv.filter (fun p => p.2 != ev) } else x)
-            (acts.filter (fun a => a != .ackEv ev) ++ release ++ early, js3)
+            let (acts, v3) := advance q c fuel ev .done (g :: outer') owner none { v with joins := js' }
+            let js3 := v3.joins.map (fun x => if x.jid == g.jid then { x with heldEv := x.heldEv.filter (fun p => p.2 != ev) } else x)
+            (acts.filter (fun a => a != .ackEv ev) ++ release ++ early, { v3 with joins := js3 })
           else
             -- crash-safe: the nested join's held events and replies stay held, by the enclosing join
             let jo := getJoin js' g.jid
             let jo := { jo with heldEv := j.heldEv.foldl (fun acc p => insertHeld g.idx p.2 acc) jo.heldEv,
                                 heldRp := j.heldRp.foldl (fun acc x => insertNat x acc) jo.heldRp }
-            let (acts, js3) := advance q fuel ev .done (g :: outer') none (setJoin js' jo)
-            (acts ++ early, js3)
-        | rest', outer' => ([.pubEv (.visit rest' outer' false)] ++ release ++ early, js')
+            let (acts, v3) := advance q c fuel ev .done (g :: outer') owner none { v with joins := setJoin js' jo }
+            (acts ++ early, v3)
+        | .done, [] =>
+          -- the fan-out was the execution's last state
+          let (acts, v3) := advance q c fuel ev .done [] owner none { v with joins := js' }
+          (acts.filter (fun a => a != .ackEv ev) ++ release ++ early, v3)
+        | .fail lvl cont, outer' =>
+          -- the join completes and the fan-out state then fails (its result is refused …)
+          let (acts, v3) := advance q c fuel ev (.fail lvl cont) outer' owner none { v with joins := js' }
+          (acts.filter (fun a => a != .ackEv ev) ++ release ++ early, v3)
+        | rest', outer' => ([.pubEv (.visit rest' outer' false owner)] ++ release ++ early, { v with joins := js' })
       else
-        let batchDone : Bool := f.mc != 0 && (batchOf f.mc width (f.idx / f.mc * f.mc)).all (fun i => j.filled.contains i)
-        if batchDone then
-          ([.pubEv (.reenter f (f.idx / f.mc * f.mc + f.mc) outer)] ++ early, setJoin js j)
-        else (early, setJoin js j)
-    | rest, stack => ([.pubEv (.visit rest stack false), .ackEv ev] ++ ackR, js)
-
-def findEv (c : Cfg) (id : Nat) (unacked : Bool) : Option QEv :=
-  c.evq.find? (fun m => m.id == id && m.unacked == unacked)
+        let from_ := f.idx / f.mc * f.mc
+        let batchDone : Bool := f.mc != 0 && (batchOf f.mc width from_).all (fun i => j.filled.contains i)
+        let v' := { v with joins := setJoin js j }
+        if batchDone && (q.batchRelaunched || !c.batches.contains (f.jid, from_ + f.mc)) then
+          ([.pubEv (.reenter f (from_ + f.mc) outer owner)] ++ early, v')
+        else (early, v')
+    | rest, stack => ([.pubEv (.visit rest stack false owner), .ackEv ev] ++ ackR, v)
 
 def markEv (c : Cfg) (id : Nat) : Cfg :=
   { c with evq := c.evq.map (fun m => if m.id == id && !m.unacked then { m with unacked := true } else m) }
@@ -257,57 +544,57 @@ inductive Op where
   | crash
   deriving Repr, DecidableEq
 
-def fuelOf (c : Cfg) : Nat := c.evq.length + 4
-
-def evStack : EvKind → List Frame
-  | .visit _ s _ => s
-  | .reenter _ _ s => s
-
-/-- (join, slot) of the branch an event belongs to -/
-def evSlot (m : QEv) : Nat × Nat :=
-  match evStack m.kind with
-  | f :: _ => (f.jid, f.idx)
-  | [] => (0, 0)
-
-def slotLe (a b : QEv) : Bool :=
-  (evSlot a).1 < (evSlot b).1 || ((evSlot a).1 == (evSlot b).1 && (evSlot a).2 ≤ (evSlot b).2)
-
-def insertBySlot (m : QEv) : List QEv → List QEv
-  | [] => [m]
-  | x :: xs => if slotLe x m then x :: insertBySlot m xs else m :: x :: xs
-
-/-- A failing Task ends the execution: the other events the engine still holds are acknowledged.  The code walks the
-joins in the order they were made and their slots in order, and cancels the Tasks that are still waiting; a
-cancellation reports back at once, and when it is the first failure its join sees it first tidies up everything
-else (recursively) and acknowledges its own event afterwards.  So: the events of the joins that already failed (those
-around the failing Task) and of later cancellations in slot order, then the first-cancelled ones, last first. -/
-def failAcks (c : Cfg) (v : Vol) (corr : Nat) (xstack : List Frame) : List Act :=
-  let others := (c.evq.filter (fun m => m.unacked && m.id != corr)).foldl (fun acc m => insertBySlot m acc) []
-  let r := others.foldl (fun (r : List Nat × List Nat × List Nat) m =>
-    let (selfAck, listAck, failed) := r
-    if v.pending.contains m.id && !failed.contains (evSlot m).1 then
-      (m.id :: selfAck, listAck, failed ++ (evStack m.kind).map (·.jid))
-    else (selfAck, listAck ++ [m.id], failed)) ([], [], xstack.map (·.jid))
-  (r.2.1 ++ r.1).map Act.ackEv
-
 /-- the reply to `corr` is handled: the Task visit of event `corr` is over -/
 def onReply (q : Quirks) (c : Cfg) (corr : Nat) (v : Vol) : Option (List Act × Vol) :=
   match findEv c corr true with
   | some m =>
     match m.kind with
-    | .visit (.task rest) stack _ =>
-      let (acts, js) := advance q (fuelOf c) corr rest stack (some corr) v.joins
-      some (acts, { v with pending := v.pending.erase corr, joins := js })
-    | .visit .taskFail xstack _ =>
-      -- the execution fails: everything it holds is let go
-      some ([.note true] ++ failAcks c v corr xstack ++ [.ackEv corr, .ackRp corr],
-            { v with pending := [], timers := [], joins := [] })
+    | .visit (.task _ rest) stack _ owner =>
+      some (advance q c (fuelOf c) corr rest stack owner (some corr) { v with pending := v.pending.erase corr })
+    | .visit (.child _ _ rest) stack _ owner =>
+      some (advance q c (fuelOf c) corr rest stack owner (some corr) { v with pending := v.pending.erase corr })
     | _ => none
   | none => none
+
+/-- does the engine have attempts of execution `owner` on record (its branch metadata, made when the first event of a branch is
+delivered or the first result arrives — not when a fan-out state launches its branches), leaving event `except` aside -/
+def hasRecords (c : Cfg) (v : Vol) (owner : Option Nat) (except : Nat) : Bool :=
+  v.joins.any (fun j => !j.filled.isEmpty || j.dead || j.ended) ||
+    c.evq.any (fun m => m.unacked && m.id != except && evOwner m.kind == owner && !(evJids m.kind).isEmpty)
+
+/-- The event is dropped (`branch_has_terminated`): it belongs to a fan-out attempt that is over, or — an event delivered for
+the first time, at the top level or when the engine has no attempt of the execution on record — to an execution whose record
+says that it has ended, or the engine has kept the attempts of the execution on record after its end. -/
+def inDeadJoin (q : Quirks) (c : Cfg) (v : Vol) (m : QEv) : Bool :=
+  (evJids m.kind).any (deadJid q c v) ||
+    ((evOwner m.kind).isNone &&
+      ((!(evJids m.kind).isEmpty && v.joins.any (·.ended)) ||
+       (c.notes > 0 && !m.redelivered && ((evJids m.kind).isEmpty || !hasRecords c v none m.id)) ||
+       (c.failed > 0 && !q.attemptFailureForgotten)))
+
+/-- … it is acknowledged; when the engine has the attempt on record the attempt is now over as well, and is tidied up -/
+def dropEv (q : Quirks) (c : Cfg) (v : Vol) (m : QEv) : List Act × Vol :=
+  match evJids m.kind with
+  | j :: _ =>
+    if v.joins.any (·.ended) then
+      -- kept after the end of the execution: when this was the last thing outstanding the records are deleted
+      let others := c.evq.any (fun x => x.id != m.id && evOwner x.kind == evOwner m.kind && !(evJids x.kind).isEmpty)
+      ([.ackEv m.id], if others then v else { v with joins := v.joins.filter (fun x => !x.ended) })
+    else if (evJids m.kind).any (deadJid q c v) then
+      let (acts, v') := tidy c { v with joins := markDead v.joins [j] } (evOwner m.kind) [m.id]
+      (Act.ackEv m.id :: acts, v')
+    else ([.ackEv m.id], v)
+  | [] => ([.ackEv m.id], v)
+
+/-- the request of a Task visit -/
+def requestOf (id : Nat) : Sk → List Act
+  | .child _ sub _ => [.pubChild id sub]
+  | _ => [.pubReq id]
 
 /-- one handler invocation (`cut = some k`: a crash after its first `k` broker operations); `none`: the
 operation is not enabled -/
 def step (q : Quirks) (c : Cfg) (op : Op) (cut : Option Nat) : Option Cfg :=
+  if c.diverged then some c else
   match op with
   | .crash => some c.crash
   | .ev id =>
@@ -316,31 +603,40 @@ def step (q : Quirks) (c : Cfg) (op : Op) (cut : Option Nat) : Option Cfg :=
     | some m =>
       let c := markEv c id
       let v := c.vol
+      if inDeadJoin q c v m then some (c.handler (dropEv q c v m).1 (dropEv q c v m).2 cut) else
       match m.kind with
-      | .reenter _ _ _ => some (c.handler [] { v with timers := insertNat id v.timers } cut)
-      | .visit todo stack start =>
-        let pre : List Act := if start then [.note false] else []
-        match todo with
-        | .task _ | .taskFail =>
-          if q.requestFromTimer then some (c.handler pre { v with timers := insertNat id v.timers } cut)
+      | .reenter _ _ _ _ => some (c.handler [] { v with timers := insertNat id v.timers } cut)
+      | .visit todo stack start owner =>
+        let pre : List Act := if start then [if owner.isSome then .cnote false else .note false] else []
+        let isTask : Option Nat := match todo with
+          | .task rc _ => some rc
+          | .child rc _ _ => some rc
+          | _ => none
+        match isTask with
+        | some rc =>
+          if q.requestFromTimer || rc != 0 then some (c.handler pre { v with timers := insertNat id v.timers } cut)
           else
             -- crash-safe: the request is sent by the handler that accepts the event, before anything else it does
-            -- (the deferred handler has nothing left to do: see `tm`)
-            let send : List Act := if m.redelivered then [] else [.pubReq id]
+            -- (the deferred handler has nothing left to do: see `tm`), unless it is on record as sent
+            let send : List Act := if c.sent.contains id then [] else requestOf id todo
             some (c.handler (send ++ pre) { v with pending := insertNat id v.pending } cut)
+        | none =>
+        match todo with
         | .wait _ | .par _ _ _ => some (c.handler pre { v with timers := insertNat id v.timers } cut)
         | .step rest =>
-          let (acts, js) := advance q (fuelOf c) id rest stack none v.joins
-          some (c.handler (pre ++ acts) { v with joins := js } cut)
-        | .done =>
-          let (acts, js) := advance q (fuelOf c) id .done stack none v.joins
-          some (c.handler (pre ++ acts) { v with joins := js } cut)
+          let (acts, v') := advance q c (fuelOf c) id rest stack owner none v
+          some (c.handler (pre ++ acts) v' cut)
+        | .opaque => some { c with diverged := true }
+        | rest =>
+          -- `done` (an empty skeleton or branch), or a failure before any visit
+          let (acts, v') := advance q c (fuelOf c) id rest stack owner none v
+          some (c.handler (pre ++ acts) v' cut)
   | .tm id =>
     if !c.timers.contains id then
       -- crash-safe protocol: the deferred handler of a Task whose request went out with the delivery has nothing to do
       (match findEv c id true with
        | some m => (match m.kind with
-         | .visit (.task _) _ _ | .visit .taskFail _ _ =>
+         | .visit (.task 0 _) _ _ _ | .visit (.child 0 _ _) _ _ _ =>
            if q.requestFromTimer then none else some (c.handler [] c.vol cut)
          | _ => none)
        | none => none)
@@ -349,25 +645,28 @@ def step (q : Quirks) (c : Cfg) (op : Op) (cut : Option Nat) : Option Cfg :=
     | none => none
     | some m =>
       let v := { c.vol with timers := c.timers.erase id }
+      -- (the deferred handler of a Task, Parallel or Map state looks again: the attempt may have failed since the event was
+      -- accepted; a Wait that is over does not)
+      if !waitVisit m.kind && inDeadJoin q c v m then some (c.handler (dropEv q c v m).1 (dropEv q c v m).2 cut) else
       match m.kind with
-      | .reenter f from_ stack => some (c.handler (launch f from_ stack ++ [.ackEv id]) v cut)
-      | .visit todo stack _ =>
+      | .reenter f from_ stack owner => some (c.handler (launch f from_ stack owner ++ [.ackEv id]) v cut)
+      | .visit todo stack _ owner =>
         match todo with
-        | .task _ | .taskFail =>
-          if q.requestFromTimer then
-            let send : List Act := if m.redelivered then [] else [.pubReq id]
-            some (c.handler send { v with pending := insertNat id v.pending } cut)
-          else some (c.handler [] v cut)
+        | .task _ _ | .child _ _ _ =>
+          -- the engine takes a redelivered event to have been requested; the crash-safe protocol looks at the record
+          let already : Bool := if q.requestFromTimer then m.redelivered else c.sent.contains id
+          let send : List Act := if already then [] else requestOf id todo
+          some (c.handler send { v with pending := insertNat id v.pending } cut)
         | .wait rest =>
-          let (acts, js) := advance q (fuelOf c) id rest stack none v.joins
-          some (c.handler acts { v with joins := js } cut)
+          let (acts, v') := advance q c (fuelOf c) id rest stack owner none v
+          some (c.handler acts v' cut)
         | .par mc brs rest =>
           if brs.toList.isEmpty then
-            let (acts, js) := advance q (fuelOf c) id rest stack none v.joins
-            some (c.handler acts { v with joins := js } cut)
+            let (acts, v') := advance q c (fuelOf c) id rest stack owner none v
+            some (c.handler acts v' cut)
           else
             let f : Frame := { jid := c.nextJ, idx := 0, mc := mc, branches := brs, rest := rest }
-            some (({ c with nextJ := c.nextJ + 1 } : Cfg).handler (launch f 0 stack ++ [Act.ackEv id])
+            some (({ c with nextJ := c.nextJ + 1 } : Cfg).handler (launch f 0 stack owner ++ [Act.ackEv id])
               { v with joins := setJoin v.joins { jid := c.nextJ } } cut)
         | _ => none
   | .rp corr =>
@@ -388,7 +687,7 @@ def step (q : Quirks) (c : Cfg) (op : Op) (cut : Option Nat) : Option Cfg :=
       | none => none
 
 /-- the execution is started: its first event is published -/
-def init (sk : Sk) : Cfg := { evq := [{ id := 0, kind := .visit sk [] true }], nextId := 1 }
+def init (sk : Sk) : Cfg := { evq := [{ id := 0, kind := .visit sk [] true none }], nextId := 1 }
 
 /-- a schedule: operations, each possibly cut short by a crash after `k` broker operations -/
 abbrev Sched := List (Op × Option Nat)
@@ -417,6 +716,7 @@ def nextOp (c : Cfg) : Option Op :=
 def drain (q : Quirks) : Nat → Cfg → Cfg
   | 0, c => c
   | fuel + 1, c =>
+    if c.diverged then c else
     match nextOp c with
     | none => c
     | some op =>
@@ -435,7 +735,8 @@ structure Obs where
   resent : List Nat
   /-- requests the engine waits for that were never sent -/
   pendingUnsent : List Nat
-  /-- requests the engine waits for whose reply is gone (sent, and no reply left in the queue) -/
+  /-- requests the engine waits for whose reply is gone (sent, no reply left in the queue, and — a child execution —
+  nothing of the child left to run) -/
   pendingLost : List Nat
   /-- nothing is enabled any more -/
   quiet : Bool
@@ -446,7 +747,8 @@ def observe (c : Cfg) : Obs :=
     notes := c.notes
     resent := (c.sent.eraseDups).filter (fun x => count c.sent x > 1)
     pendingUnsent := c.pending.filter (fun p => !c.sent.contains p)
-    pendingLost := c.pending.filter (fun p => c.sent.contains p && !(c.rpq.any (·.corr == p)))
+    pendingLost := c.pending.filter (fun p => c.sent.contains p && !(c.rpq.any (·.corr == p)) &&
+                                               !(c.evq.any (fun m => evOwner m.kind == some p)))
     quiet := (nextOp c).isNone }
 
 /-- a run is stuck: nothing is enabled and the execution has not ended -/
